@@ -75,6 +75,7 @@ type interpreter struct {
 	bytes   [256]*Term
 
 	intrinsicCache map[*ssa.Function]intrinsicFn
+	fnNames        map[*ssa.Function]string
 
 	trailOn bool
 	trail   []trailEnt
@@ -266,6 +267,9 @@ func rtPanic(msg string) {
 
 func (i *interpreter) visitInstr(fr *frame, instr ssa.Instruction) continuation {
 	i.steps++
+	if i.steps&0xffff == 0 && i.ex.run.pastHardStop() {
+		panic(pathAbort{"deadline", "time budget exhausted"})
+	}
 	if i.steps > i.maxSteps {
 		panic(pathAbort{"steps", fmt.Sprintf("step budget %d exhausted in %s", i.maxSteps, fr.fn)})
 	}
